@@ -100,6 +100,92 @@ pub fn abstract_term(t: &Tm, src: &mut Src, seen: &mut Vec<((String, usize), Str
     }
 }
 
+/// a multi-pattern obtained by flattening an inserted term into equations `?v == node(?children)`, then (sometimes) identifying
+/// two variables or two slot names, so that the matcher's unification and disequality bookkeeping is exercised on real matches
+pub fn multi_from_term(ts: &[Tm], src: &mut Src) -> Vec<(String, Tm)> {
+    let names = ["x", "a", "b", "c", "d", "e", "g", "m", "n"];
+    let mut eqs: Vec<(String, Tm)> = Vec::new();
+    let mut next = 0usize;
+    // equal subterms (also across the given terms) share one variable
+    let mut var_of: Vec<(Tm, String)> = Vec::new();
+    let mut queue: std::collections::VecDeque<(String, Tm)> = std::collections::VecDeque::new();
+    for t in ts {
+        let v = names[next % names.len()].to_string();
+        next += 1;
+        var_of.push((t.clone(), v.clone()));
+        queue.push_back((v, t.clone()));
+    }
+    // breadth first: roots first, leaves last
+    while let Some((v, node)) = queue.pop_front() {
+        if eqs.len() >= 5 {
+            break;
+        }
+        let mut args = Vec::new();
+        for a in &node.args {
+            match a {
+                Arg::K(bs, k) => {
+                    let shared = if bs.is_empty() { var_of.iter().find(|(t, _)| t == k).map(|(_, v)| v.clone()) } else { None };
+                    let cv = match shared {
+                        Some(v) => v,
+                        None => {
+                            let cv = names[next % names.len()].to_string();
+                            next += 1;
+                            if bs.is_empty() {
+                                var_of.push((k.clone(), cv.clone()));
+                            }
+                            if src.pick(4) != 0 {
+                                queue.push_back((cv.clone(), k.clone()));
+                            }
+                            cv
+                        }
+                    };
+                    args.push(Arg::K(bs.clone(), pvar(&cv)));
+                }
+                o => args.push(o.clone()),
+            }
+        }
+        eqs.push((v, Tm { op: node.op.clone(), args }));
+    }
+    // identify two variables
+    if src.pick(3) == 0 {
+        let vars: Vec<String> = eqs.iter().flat_map(|(_, t)| t.subterms().into_iter().filter(|s| is_pvar(s)).map(|s| pvar_name(s).to_string()).collect::<Vec<_>>()).collect();
+        if vars.len() >= 2 {
+            let from = vars[src.pick(vars.len())].clone();
+            let to = vars[src.pick(vars.len())].clone();
+            for (v, t) in eqs.iter_mut() {
+                if *v == from {
+                    *v = to.clone();
+                }
+                for a in t.args.iter_mut() {
+                    if let Arg::K(_, k) = a {
+                        if is_pvar(k) && pvar_name(k) == from {
+                            *k = pvar(&to);
+                        }
+                    }
+                }
+            }
+        }
+    }
+    // identify two slot names across the equations
+    if src.pick(3) == 0 {
+        let slots: Vec<Name> = eqs.iter().flat_map(|(_, t)| t.args.iter().filter_map(|a| if let Arg::S(n) = a { Some(*n) } else { None }).collect::<Vec<_>>()).collect();
+        if slots.len() >= 2 {
+            let from = slots[src.pick(slots.len())];
+            let to = slots[src.pick(slots.len())];
+            for (_, t) in eqs.iter_mut() {
+                for a in t.args.iter_mut() {
+                    if let Arg::S(n) = a {
+                        if *n == from {
+                            *n = to;
+                        }
+                    }
+                }
+            }
+        }
+    }
+    eqs
+}
+
 fn pat_vars(p: &Tm) -> BTreeSet<String> {
     p.subterms().iter().filter(|s| is_pvar(s)).map(|s| pvar_name(s).to_string()).collect()
 }
@@ -179,7 +265,7 @@ fn strategy(lang: LangId) -> BoxedStrategy<MatchCase> {
     let mut cfg = MixedCfg::for_lang(lang);
     cfg.max_ops = 7;
     let sig = lang.sig();
-    (mixed_strategy(cfg), proptest::collection::vec(proptest::collection::vec(any::<u16>(), 0..30), 1..5), proptest::collection::vec(proptest::collection::vec(any::<u16>(), 0..30), 0..3))
+    (mixed_strategy(cfg), proptest::collection::vec(proptest::collection::vec(any::<u16>(), 0..30), 1..5), proptest::collection::vec(proptest::collection::vec(any::<u16>(), 0..30), 0..4))
         .prop_map(move |(base, pch, mch)| {
             let terms = base.terms();
             let pats = pch
@@ -198,7 +284,29 @@ fn strategy(lang: LangId) -> BoxedStrategy<MatchCase> {
                     gen_simple_pat(&sig, 4, &mut src, 0, 3)
                 })
                 .collect();
-            let multi = mch.iter().map(|ch| gen_multi(&sig, &mut Src::new(ch))).collect();
+            let multi = mch
+                .iter()
+                .enumerate()
+                .map(|(i, ch)| {
+                    let mut src = Src::new(ch);
+                    if i % 2 == 0 && !terms.is_empty() {
+                        let t = &terms[src.pick(terms.len())];
+                        // flatten the term or one of its subterms
+                        let subs = t.subterms();
+                        let st = subs[src.pick(subs.len())].clone();
+                        let t2 = &terms[src.pick(terms.len())];
+                        let subs2 = t2.subterms();
+                        let st2 = subs2[src.pick(subs2.len())].clone();
+                        if !st.op.is_empty() {
+                            if !st2.op.is_empty() && st2 != st && src.pick(2) == 0 {
+                                return multi_from_term(&[st, st2], &mut src);
+                            }
+                            return multi_from_term(&[st], &mut src);
+                        }
+                    }
+                    gen_multi(&sig, &mut src)
+                })
+                .collect();
             MatchCase { base, pats, multi }
         })
         .boxed()
@@ -220,7 +328,7 @@ pub fn property(tier: Tier) -> Property {
                     c.multi.iter().map(|e| e.iter().map(|(v, t)| format!("?{} == {}", v, render_pat(t, &Naming::Alpha))).collect::<Vec<_>>().join(", ")).collect::<Vec<_>>()
                 )
             },
-            rule: "a reachable e-graph (mixed history with symmetric / redundant / self-referential unions and rewriting), 1-4 patterns, half of them random (depth <= 3, repeated variables, free and bound slots, also unmatched ones) and half obtained from inserted terms by replacing subterms with (often repeated) variables and 0-2 random multi-patterns (1-3 equations, shared variables); every returned substitution is total, its instance looks up without inserting, multi-pattern equations hold, fingerprint unchanged; non-trivial = at least one match on an e-graph with an effective union; distinct by rendered case",
+            rule: "a reachable e-graph (mixed history with symmetric / redundant / self-referential unions and rewriting), 1-4 patterns, half of them random (depth <= 3, repeated variables, free and bound slots, also unmatched ones) and half obtained from inserted terms by replacing subterms with (often repeated) variables and 0-3 multi-patterns (random ones with 1-3 equations and shared variables, and ones obtained by flattening one or two inserted (sub)terms into up to 5 equations (equal subterms share a variable), sometimes with two variables or two slot names identified); every returned substitution is total, its instance looks up without inserting, multi-pattern equations hold, fingerprint unchanged; non-trivial = at least one match on an e-graph with an effective union; distinct by rendered case",
             case_timeout_s: tier.pick(120, 600),
             exhaustive: false,
         }));
